@@ -162,6 +162,20 @@ CHECKS = {
         design_ref='§6 C08',
         note='One or two attributes per element; documents of 3-5 nodes; nesting far below the recursion budget.',
         technique='TLA+ definedness model (positive + negative) checked by TLC; TLC-enumerated element shapes replayed through all entry points; recorded check order validated'),
+    'C17': dict(
+        category='model_checking',
+        text='HtmlState.tla defines the HTML state pseudo-classes declaratively (checked, default, indeterminate, enabled/disabled with the '
+             'fieldset/legend rule, required/optional, read-write/read-only, placeholder-shown, link, dir, defined; iframe = document '
+             'boundary); TLC checks the six partition laws and the default/group/boundary theorems as invariants and enumerates every '
+             'form / fieldset / radio-group / iframe / bidi document up to 4-5 nodes over six focused template sets (100 k documents quick, '
+             '1.1 M thorough); every document with its predicted sets is replayed into soupsieve.select. The partition laws over the '
+             'code\'s own results and definition conformance on seeded random documents parsed by html.parser, lxml and html5lib are '
+             'decided by TLC (Trace_C17, one REJECT per failing predicate).',
+        design_ref='§6 C17',
+        note='Bounded document size and attribute pools; gated on the definitions the property spells out (default with the documented nested-form '
+             '"bail" rule, indeterminate, placeholder-shown, iframe boundary, link=any-link) and the laws; the form-owner reading of :default and '
+             'the standard\'s finer reading of :dir() are alternative readings recorded as drift; range law: disjointness only (coverage is C18\'s).',
+        technique='TLA+ definitions + partition-law invariants checked by TLC; enumeration replayed into the code; law-level and definition-level TLC trace validation on parser-built documents'),
 }
 
 PENDING = {}
